@@ -1,10 +1,11 @@
 from driver import Unit
 
 
-def u(ch, tag, caps, quick=True):
+def u(ch, tag, caps, quick=True, qnocc=False):
     return Unit(f"C04_{ch}_{tag}", "harness/C04_string.cpp",
                 defs=[f"-DVF_CHAR={ch}", f'-DVF_CHAR_NAME="{ch}"', f"-DVF_CAPS={caps}"],
-                flavours={"quick": ["asan-cc"] if quick else [], "thorough": ["asan-cc", "asan-nocc"] if ch == "char" else ["asan-cc"]},
+                flavours={"quick": (["asan-cc", "asan-nocc"] if qnocc else ["asan-cc"]) if quick else [],
+                          "thorough": ["asan-cc", "asan-nocc"] if ch == "char" or qnocc else ["asan-cc"]},
                 shards={"quick": 6, "thorough": 16})
 
 
@@ -25,8 +26,8 @@ P = dict(
           "random: 40-step histories at every capacity of the unit. One evaluation = one tetl call compared with the model. Distinct = hash of "
           "(char type, capacity, model contents before, overload, normalised arguments); all counted cases are non-trivial (an operation applied to a concrete state)."),
     units=[
-        u("char", "a", "0,1,3,4"), u("char", "b", "7,15,16"), u("char", "c", "31,255,256"),
-        u("wchar_t", "a", "0,1,3,4"), u("wchar_t", "b", "7,15,16,31"),
+        u("char", "a", "0,1,3,4", qnocc=True), u("char", "b", "7,15,16", qnocc=True), u("char", "c", "31,255,256"),
+        u("wchar_t", "a", "0,1,3,4", qnocc=True), u("wchar_t", "b", "7,15,16,31"),
         u("char8_t", "a", "0,3,15,16,255", quick=False), u("char16_t", "a", "1,4,15,16,256", quick=False), u("char32_t", "a", "0,3,7,16,31", quick=False),
     ],
     floor={"quick": 200000, "thorough": 2000000},
